@@ -88,6 +88,18 @@ class Ctx:
                                   "2": {"title": "singlemark", "chan_type": "single"}}
         return s
 
+    def bystanders(self):
+        """Two more threads of the same process that require only the ovni model and do nothing but
+        run and end on the second CPU, one with a lower and one with a higher TID than the probing
+        thread (whatever order the emulator walks the threads in, one comes first and one last)."""
+        out = []
+        for tid, clk in ((TID - 1, 3), (TID + 1, 6)):
+            b = Stream(tid=tid, pid=1, cpus=None, require={"ovni": self.require["ovni"]})
+            b.ev(clk, "OHx", i32(1, -1) + u64(0))
+            b.ev(clk + 1, "OHe")
+            out.append((b.relpath, b.json_text(), b.obs()))
+        return out
+
     # ---- legal contexts -------------------------------------------------
     def context(self, model, c, v, alt=0):
         """Returns (start, pre, payload, jumbo): `start` = whether the thread is
@@ -205,13 +217,14 @@ class Ctx:
 
 def run_probe(args):
     """Worker: (emu_exe, dir, stream) -> (rc, stderr). Top-level for pickling."""
-    exe, d, relpath, json_text, obs, cfg = args
-    td = os.path.join(d, relpath)
-    os.makedirs(td, exist_ok=True)
-    with open(os.path.join(td, "stream.json"), "w") as f:
-        f.write(json_text)
-    with open(os.path.join(td, "stream.obs"), "wb") as f:
-        f.write(obs)
+    exe, d, relpath, json_text, obs, cfg = args[:6]
+    for (rp, jt, ob) in [(relpath, json_text, obs)] + list(args[6] if len(args) > 6 else []):
+        td = os.path.join(d, rp)
+        os.makedirs(td, exist_ok=True)
+        with open(os.path.join(td, "stream.json"), "w") as f:
+            f.write(jt)
+        with open(os.path.join(td, "stream.obs"), "wb") as f:
+            f.write(ob)
     env = dict(os.environ)
     env["OVNI_CONFIG_DIR"] = cfg
     try:
